@@ -1036,6 +1036,9 @@ pub fn run(session: &Session, prop: &'static RefProp, rule: &str) -> i32 {
                     format!("{n} := mut 4; loop {{ {n} += 2; break; }}; *{n}"),
                     format!("({n}, k) := (5, 1); {n} + k"),
                     format!("m := mod {{ {n} := 5; }}; m.{n} + 1"),
+                    // statements separated by line ends only: the name is followed by a line that is an expression
+                    format!("fy := true\nx := true\ned := 0\n{n} := 5\nw := {n}\n1\nw + 1"),
+                    format!("{n} := 5\nw := [{n}\n, 1][0]\nw + 1"),
                 ]
             };
             for text in forms {
@@ -1131,6 +1134,51 @@ pub fn run(session: &Session, prop: &'static RefProp, rule: &str) -> i32 {
                 }
             }
         }
+    }
+    if prop.id == "C12" && !session.stopped() {
+        // every loop shape run for n rounds with `continue` (or `break`) taken in exactly the rounds of a
+        // given set - the first, the last, every one, none: rounds started, rounds finished and the
+        // counter afterwards have documented values (a jump in the last round is the boundary case: the
+        // condition is already false when the loop is tested next)
+        let mut cases = vec![];
+        for n in 1..=4u32 {
+            for mask in 0..(1u32 << n) {
+                let skipped = mask.count_ones();
+                let taken = format!("({mask} >> (*k - 1)) & 1 == 1");
+                let body = format!("k += 1; s += 1; if {taken} {{ continue; }}; e += 1;");
+                let pre = "k := mut 0; s := mut 0; e := mut 0; ";
+                let want = format!("value ({n}, {n}, {})", n - skipped);
+                let shapes = [
+                    format!("{pre}while *k < {n} {{ {body} }}; (*k, *s, *e)"),
+                    format!("{pre}loop {{ if *k >= {n} {{ break; }}; {body} }}; (*k, *s, *e)"),
+                    format!("{pre}for x in [0; {n}]~ {{ {body} }}; (*k, *s, *e)"),
+                    format!("{pre}next := () -> int|string {{ if *k < {n} {{ return *k; }} return \"end\"; }}; while x: int = next() {{ {body} }}; (*k, *s, *e)"),
+                    format!("f := () -> (int, int, int) {{ {pre}while *k < {n} {{ {body} }}; return (*k, *s, *e); }}; f()"),
+                    format!("{pre}while *k < {n} {{ k += 1; s += 1; match {taken} {{ true => {{ continue; }}, => {{ e += 1; }}, }}; }}; (*k, *s, *e)"),
+                    format!("{pre}while *k < {n} {{ k += 1; s += 1; if j: int = *k {{ if {taken} {{ continue; }}; }}; e += 1; }}; (*k, *s, *e)"),
+                    format!("{pre}o := mut 0; while *o < 2 {{ o += 1; k = 0; while *k < {n} {{ {body} }}; }}; (*k, *s / 2, *e / 2)"),
+                ];
+                for text in shapes {
+                    cases.push(json!({"kind": "probe", "sig": "C12:jump-rounds", "text": text, "expected": want}));
+                }
+                // `break` in the first round of the set: the rounds before it ran in full
+                if mask != 0 {
+                    let first = mask.trailing_zeros() + 1;
+                    let body = format!("k += 1; s += 1; if {taken} {{ break; }}; e += 1;");
+                    let want = format!("value ({first}, {first}, {})", first - 1);
+                    for text in [
+                        format!("{pre}while *k < {n} {{ {body} }}; (*k, *s, *e)"),
+                        format!("{pre}loop {{ if *k >= {n} {{ break; }}; {body} }}; (*k, *s, *e)"),
+                        format!("{pre}for x in [0; {n}]~ {{ {body} }}; (*k, *s, *e)"),
+                        format!("{pre}next := () -> int|string {{ if *k < {n} {{ return *k; }} return \"end\"; }}; while x: int = next() {{ {body} }}; (*k, *s, *e)"),
+                    ] {
+                        cases.push(json!({"kind": "probe", "sig": "C12:jump-rounds", "text": text, "expected": want}));
+                    }
+                }
+            }
+        }
+        session.set_extra("jump_round_cases", json!(cases.len()));
+        session.run_enum(prop, cases);
     }
     if prop.id == "C12" && !session.stopped() {
         // loops evaluate to (), however their bodies end and however often they run: the value, what the
